@@ -14,7 +14,7 @@ def add_shell(chk, kind, fields, tag="", meta=None):
 def judge_shell(chk):
     """requests whose answer is OK / ERR <what differs>: ERR is a failing input"""
     for cid, case in list(chk.cases.items()):
-        if case["kind"] not in ("ARCH", "CLI", "CONV", "EQV"):
+        if case["kind"] not in ("ARCH", "CLI", "CONV", "EQV", "LIBR"):
             continue
         impl = chk.results.get(cid, {}).get("impl")
         if impl is None:
